@@ -29,14 +29,16 @@ def seeded():
 def theorems():
     import importlib, sys
     sys.path.insert(0, str(ROOT / "py"))
-    rows = ["| property | # | property theorems (all `#print axioms`-audited on every run) |", "|---|---|---|"]
-    total = 0
+    rows = ["| property | # | property theorems (`Props/Cxx.lean`; all `#print axioms`-audited on every run) | # | supplementary theorems (`Props/CxxSupp.lean`; audited too, reported as INFO) |", "|---|---|---|---|---|"]
+    total = stotal = 0
     for f in sorted((ROOT / "py" / "verifpy" / "props").glob("c[0-9][0-9].py")):
         mod = importlib.import_module(f"verifpy.props.{f.stem}")
         th = list(getattr(mod, "THEOREMS", []))
+        st = list(getattr(mod, "SUPP_THEOREMS", []))
         total += len(th)
-        rows.append(f"| {f.stem.upper()} | {len(th)} | " + ", ".join(f"`{t}`" for t in th) + " |")
-    rows.append(f"| all | {total} | |")
+        stotal += len(st)
+        rows.append(f"| {f.stem.upper()} | {len(th)} | " + ", ".join(f"`{t}`" for t in th) + f" | {len(st)} | " + ", ".join(f"`{t}`" for t in st) + " |")
+    rows.append(f"| all | {total} | | {stotal} | |")
     return "\n".join(rows)
 
 
@@ -46,8 +48,9 @@ def glance_counts(s):
     sys.path.insert(0, str(ROOT / "py"))
     def fix(m):
         mod = importlib.import_module(f"verifpy.props.c{m.group(1)}")
-        return f"{m.group(0)[:m.start(3) - m.start(0)]}{len(getattr(mod, 'THEOREMS', []))}"
-    return re.sub(r"^\| C(\d\d) \|([^|]*)\| (\d+)(?=[ :(])", fix, s, flags=re.M)
+        n, k = len(getattr(mod, 'THEOREMS', [])), len(getattr(mod, 'SUPP_THEOREMS', []))
+        return f"{m.group(0)[:m.start(3) - m.start(0)]}{n}" + (f"+{k}s" if k else "")
+    return re.sub(r"^\| C(\d\d) \|([^|]*)\| (\d+(?:\+\d+s)?)(?=[ :(])", fix, s, flags=re.M)
 
 
 def main():
